@@ -16,7 +16,13 @@ package scen
 //	crawler:  bucket-query-twice, dialed-twice   "queries every peer ... exactly once"
 //	          crawl-missed, crawl-invented        "every peer reachable from its seeds" (a seed without any address -
 //	                                              AddrInfo and peerstore - counts as reachable once a delivered reply
-//	                                              of a fully queried peer, or a later seed entry, carries an address for it)
+//	                                              of a fully queried peer, or a later seed entry, carries an address for it).
+//	                                              The crawl topology is the world's, not the crawler's: q is reachable from
+//	                                              p when p's routing table holds q, i.e. when p names q in its reply for ANY
+//	                                              of the buckets it is asked about (c16World.tableOf) - not only in the
+//	                                              replies the crawler chose to fetch. A crawler that reports p as queried
+//	                                              successfully after asking it about a part of its table only (stops early,
+//	                                              skips buckets) leaves peers of the topology unqueried: crawl-missed.
 //	          callback-count, callback-uncrawled  "exactly one outcome per queried peer"
 //	          callback-wrong, success-content     the outcome matches what the peer did
 //	          run-hang, work-after-return         Run returns after all work ended
@@ -429,6 +435,9 @@ type c16World struct {
 	S   *sim.Sim
 	U   *simnet.Universe
 	Beh map[peer.ID]*c16Beh
+	// Kind: 0 free-form replies (any peer in the reply for any bucket; most
+	// replies are empty), 1 and 2 Kademlia servers (see genC16World).
+	Kind int
 	// OnDialOK (optional) runs right before a dial is released as successful.
 	OnDialOK func(p peer.ID)
 }
@@ -443,6 +452,17 @@ func genC16World(s *sim.Sim, u *simnet.Universe, rng *subRng, faultLevel int) *c
 	w := &c16World{S: s, U: u, Beh: map[peer.ID]*c16Beh{}}
 	n := len(u.Peers)
 	maxDeg := []int{1, 2, 4, n}[s.Draw("degree", 4)]
+	// How the scripted peers answer. 0: free-form (each neighbour is named in the
+	// reply for one or two arbitrary buckets, every other reply is empty). 1, 2:
+	// like a Kademlia server - the peer has a routing table and answers the query
+	// for bucket c with the R entries nearest to a key of that bucket (R, the
+	// reply size, is a world input): consecutive replies overlap or repeat each
+	// other, and an entry in a sparsely populated region of the table appears in
+	// the reply for its own bucket only. 2 draws tables without entries in the
+	// first buckets (a peer that knows only its own neighbourhood), where the
+	// replies for the shallow buckets are all the same list.
+	w.Kind = s.Draw("world-kind", 3)
+	replySize := 1 + rng.Intn(3)
 	pct := []int{0, 12, 40}[faultLevel]
 	for _, p := range u.Peers {
 		b := &c16Beh{FailAt: -1, Refs: map[int][]*simnet.Peer{}}
@@ -450,12 +470,16 @@ func genC16World(s *sim.Sim, u *simnet.Universe, rng *subRng, faultLevel int) *c
 		if rng.Intn(8) == 0 {
 			deg = 0 // answers every query with an empty list
 		}
-		for k := 0; k < deg && n > 1; k++ {
-			q := u.Peers[rng.Intn(n)]
-			if q == p && rng.Intn(4) != 0 {
-				continue // a peer naming itself is legal but rare
+		if w.Kind == 0 {
+			for k := 0; k < deg && n > 1; k++ {
+				q := u.Peers[rng.Intn(n)]
+				if q == p && rng.Intn(4) != 0 {
+					continue // a peer naming itself is legal but rare
+				}
+				w.addRef(b, q, rng)
 			}
-			w.addRef(b, q, rng)
+		} else {
+			w.kadReplies(b, p, deg, replySize, rng)
 		}
 		if rng.Intn(100) < pct {
 			b.DialFail = true
@@ -465,6 +489,66 @@ func genC16World(s *sim.Sim, u *simnet.Universe, rng *subRng, faultLevel int) *c
 		w.Beh[p.ID] = b
 	}
 	return w
+}
+
+// kadReplies scripts p as a Kademlia server: a routing table of up to deg other
+// peers (world kind 2: preferably peers that share a prefix with p, so that the
+// first buckets are empty), and for each of the c16QueryBuckets buckets the
+// reply a server gives to a key of that bucket - the replySize table entries
+// nearest to it. The harness cannot see the crawler's random key before it
+// arrives, and the trace must not depend on it, so the reply is computed for
+// the bucket's canonical key (p's id with the bucket's bit flipped): the
+// entries of the asked bucket come first, then the deeper buckets, then the
+// shallower ones, exactly as for every other key of that bucket; only the
+// order inside one bucket is the canonical key's.
+func (w *c16World) kadReplies(b *c16Beh, p *simnet.Peer, deg, replySize int, rng *subRng) {
+	var cand []*simnet.Peer
+	for _, q := range w.U.Peers {
+		if q != p {
+			cand = append(cand, q)
+		}
+	}
+	if w.Kind == 2 {
+		// the deeper half of the candidates (ascending distance from p)
+		cand = simnet.Nearest(cand, p.Kad, (len(cand)+1)/2)
+	}
+	var tab []*simnet.Peer
+	for len(tab) < deg && len(cand) > 0 {
+		i := rng.Intn(len(cand))
+		tab = append(tab, cand[i])
+		cand = append(cand[:i:i], cand[i+1:]...)
+	}
+	if len(tab) == 0 {
+		return
+	}
+	distinct := map[string]bool{}
+	for c := 0; c < c16QueryBuckets; c++ {
+		key := p.Kad
+		key[c/8] ^= 0x80 >> (c % 8)
+		b.Refs[c] = simnet.Nearest(tab, key, replySize)
+		distinct[names(w.U, simnet.IDs(b.Refs[c]))] = true
+	}
+	if len(distinct) > 1 {
+		w.S.Count("probe_kad_replies_differ_by_bucket")
+	}
+}
+
+// tableOf returns p's routing table as the world defines it: every peer p
+// names in its reply for any of the buckets it populates. This - not the
+// subset of replies a crawler fetched - is the crawl topology of the property
+// ("every peer reachable from its seeds ... for every crawl topology").
+func (w *c16World) tableOf(p peer.ID) map[peer.ID]bool {
+	b := w.Beh[p]
+	if b == nil {
+		return nil
+	}
+	t := map[peer.ID]bool{}
+	for _, qs := range b.Refs {
+		for _, q := range qs {
+			t[q.ID] = true
+		}
+	}
+	return t
 }
 
 func (w *c16World) addRef(b *c16Beh, q *simnet.Peer, rng *subRng) {
@@ -495,6 +579,8 @@ type crawlObs struct {
 	dialOut map[peer.ID][]string         // ok fail cancel
 	qOut    map[peer.ID]map[int][]string // per bucket: ok err cancel
 	refs    map[peer.ID]map[peer.ID]bool // union of the delivered replies
+	table   map[peer.ID]map[peer.ID]bool // the answering peer's whole table (c16World.tableOf) during this crawl
+	stale   map[peer.ID]bool             // a delivered reply of the peer repeated only peers it had named before
 	pre     map[peer.ID]bool             // connected before the crawl started
 	// offsets into the sender log / dial log when the crawl started
 	logFrom, dialFrom int
@@ -503,7 +589,8 @@ type crawlObs struct {
 
 func newCrawlObs(n int) *crawlObs {
 	return &crawlObs{N: n, seedHasAddr: map[peer.ID]bool{}, success: map[peer.ID][][]peer.ID{}, fail: map[peer.ID]int{},
-		dialOut: map[peer.ID][]string{}, qOut: map[peer.ID]map[int][]string{}, refs: map[peer.ID]map[peer.ID]bool{}, pre: map[peer.ID]bool{}}
+		dialOut: map[peer.ID][]string{}, qOut: map[peer.ID]map[int][]string{}, refs: map[peer.ID]map[peer.ID]bool{}, pre: map[peer.ID]bool{},
+		table: map[peer.ID]map[peer.ID]bool{}, stale: map[peer.ID]bool{}}
 }
 
 func (o *crawlObs) isReturned() bool {
@@ -665,9 +752,23 @@ func (w *c16World) crawlActions(o *crawlObs) []sim.Action {
 				rec("ok")
 				if o.refs[r.To] == nil {
 					o.refs[r.To] = map[peer.ID]bool{}
+					// the world does not change while a crawl runs
+					o.table[r.To] = w.tableOf(r.To)
 				}
+				news := 0
 				for _, q := range b.Refs[bucket] {
+					if !o.refs[r.To][q.ID] {
+						news++
+					}
 					o.refs[r.To][q.ID] = true
+				}
+				switch {
+				case news == 0 && len(o.refs[r.To]) > 0:
+					o.stale[r.To] = true
+				case news > 0 && o.stale[r.To]:
+					// the peer named somebody new after a reply that held no news
+					// (empty, or only peers it had named before)
+					s.Count("probe_new_peer_after_reply_without_news")
 				}
 				s.Release(p, simnet.Reply{Msg: &pb.Message{Type: r.Req.GetType(), Key: r.Req.GetKey(), CloserPeers: simnet.ToPB(b.Refs[bucket])}})
 			}})
@@ -748,13 +849,14 @@ func checkCrawl(s *sim.Sim, u *simnet.Universe, h *simhost.Host, snd *c16Sender,
 		crawled   bool
 		instances int
 		dialOK    bool
-		failed    bool // a dial failure, query failure or time-out was delivered
-		okFull    bool // connected, >=1 query answered, none failed, none unanswered
-		refs      map[peer.ID]bool
+		failed    bool             // a dial failure, query failure or time-out was delivered
+		okFull    bool             // connected, >=1 query answered, none failed, none unanswered
+		refs      map[peer.ID]bool // named in the replies that were delivered
+		table     map[peer.ID]bool // named in the reply for any bucket: the peer's routing table
 	}
 	vs := map[peer.ID]*verdict{}
 	for _, p := range u.Peers {
-		v := &verdict{refs: o.refs[p.ID]}
+		v := &verdict{refs: o.refs[p.ID], table: o.table[p.ID]}
 		nq, maxq, answered := 0, 0, 0
 		for _, n := range queries[p.ID] {
 			nq += n
@@ -791,7 +893,15 @@ func checkCrawl(s *sim.Sim, u *simnet.Universe, h *simhost.Host, snd *c16Sender,
 	// peers; MAY = closure through every delivered reply (a peer whose queries
 	// partly failed is reported as failed by the crawler - whether the replies it
 	// did give are followed is left open by the contract).
-	closure := func(edgeOK func(v *verdict) bool, seedOK func(p peer.ID) bool) map[peer.ID]bool {
+	//
+	// The MUST edges of a fully and successfully queried peer are its whole
+	// routing table - what it answers for any of the buckets it populates -, not
+	// just the replies the crawler fetched: the topology ("reachable from its
+	// seeds") belongs to the network. Nothing failed and nothing is outstanding
+	// for such a peer, so a table entry the crawler did not learn is one it did
+	// not ask for. How many buckets a peer populates (c16QueryBuckets) is a
+	// scenario input; tables reaching deeper than that are not generated.
+	closure := func(edges func(v *verdict) map[peer.ID]bool, seedOK func(p peer.ID) bool) map[peer.ID]bool {
 		set := map[peer.ID]bool{}
 		var todo []peer.ID
 		for _, p := range o.seeds {
@@ -804,10 +914,10 @@ func checkCrawl(s *sim.Sim, u *simnet.Universe, h *simhost.Host, snd *c16Sender,
 			p := todo[0]
 			todo = todo[1:]
 			v := vs[p]
-			if v == nil || !edgeOK(v) {
+			if v == nil {
 				continue
 			}
-			for q := range v.refs {
+			for q := range edges(v) {
 				if !set[q] {
 					set[q] = true
 					todo = append(todo, q)
@@ -821,8 +931,13 @@ func checkCrawl(s *sim.Sim, u *simnet.Universe, h *simhost.Host, snd *c16Sender,
 	// be dialed as a seed (Run skips it without an outcome); it is reachable
 	// once a delivered reply of a fully and successfully queried peer names it -
 	// every reply carries the named peers' addresses - like any other peer.
-	must := closure(func(v *verdict) bool { return v.okFull }, func(p peer.ID) bool { return o.seedHasAddr[p] })
-	may := closure(func(v *verdict) bool { return true }, func(peer.ID) bool { return true })
+	must := closure(func(v *verdict) map[peer.ID]bool {
+		if !v.okFull {
+			return nil
+		}
+		return v.table
+	}, func(p peer.ID) bool { return o.seedHasAddr[p] })
+	may := closure(func(v *verdict) map[peer.ID]bool { return v.refs }, func(peer.ID) bool { return true })
 	for _, p := range o.seeds {
 		if !o.seedHasAddr[p] && must[p] {
 			s.Count("probe_addrless_seed_reachable_by_referral")
@@ -835,7 +950,18 @@ func checkCrawl(s *sim.Sim, u *simnet.Universe, h *simhost.Host, snd *c16Sender,
 		nOK, nFail := len(o.success[p.ID]), o.fail[p.ID]
 		if !v.crawled {
 			if must[p.ID] && !o.cancelled {
-				s.Violate("crawl-missed", "crawl %d never contacted %s although it is reachable from the seeds through successfully queried peers", o.N, p.Name)
+				why := ""
+				for _, x := range u.Peers {
+					if vx := vs[x.ID]; must[x.ID] && vx.okFull && vx.table[p.ID] && !vx.refs[p.ID] {
+						nq := 0
+						for _, k := range queries[x.ID] {
+							nq += k
+						}
+						why = fmt.Sprintf(" (%s holds it in its table and names it in the reply for one of its %d buckets; the crawl sent %s %d queries, all answered, never asked for that bucket and reported %s as queried)", x.Name, c16QueryBuckets, x.Name, nq, x.Name)
+						break
+					}
+				}
+				s.Violate("crawl-missed", "crawl %d never contacted %s although it is reachable from the seeds through the routing tables of successfully queried peers%s", o.N, p.Name, why)
 			}
 			if nOK+nFail > 0 {
 				s.Violate("callback-uncrawled", "crawl %d reported an outcome for %s (%d success, %d fail) without dialing or querying it", o.N, p.Name, nOK, nFail)
